@@ -277,7 +277,11 @@ class Defaults(object):
 def ask(cal, q, k, sp):
     """one query of the session vocabulary through the public API; sp(x, k) spells a second of the day"""
     t = instant(q['d'], q['s'], (k * 7919) % 1000000 if k % 2 else 0, k)
-    kw = {} if not q['ex'] else {'day_start': sp(q['ds'], k), 'day_end': sp(q['de'], k + 1)}
+    kw = {}
+    if q['ex'] in (1, 2):
+        kw['day_start'] = sp(q['ds'], k)
+    if q['ex'] in (1, 3):
+        kw['day_end'] = sp(q['de'], k + 1)
     if q['op'] == 'trade_date':
         word = ADJ[q['a']][k % 4]
         return guarded(lambda: cal.trade_date(t, word, **kw))
@@ -361,7 +365,7 @@ def s2c_histories(ctx, emitted):
                         if got != {'kind': 'val', 'v': ev['want']}:
                             ops = [x['op'] for x in hist[1:i + 1]]
                             case = {'op': ev['q']['op'], 'kind': 'history', 'step': i, 'ops': ops, 'adj': ev['q']['a'], 'where': ev['w'],
-                                    'explicit_bounds': bool(ev['q']['ex']), 'after_build': 'BuildTable' in ops[:-1],
+                                    'explicit_bounds': ev['q']['ex'], 'after_build': 'BuildTable' in ops[:-1],
                                     'after_edit': any(o.startswith('Edit') for o in ops[:-1]), 'history': hist[:i + 1]}
                             if repr(case['history']) not in _reported:
                                 _reported.add(repr(case['history']))
@@ -561,7 +565,7 @@ def c2s_histories(ctx, nhist, nev):
                         s = rng.choice([ds, de, de + 1, ds - 1, 0, 43200, rng.randrange(86400)]) % 86400
                         op = rng.choice(['trade_date', 'trade_date', 'is_trading', 'mask'])
                         ev = {'op': 'Ask', 'q': {'op': op, 'd': d, 's': s, 'a': rng.choice('fp') if op == 'trade_date' else '',
-                                                 'ex': rng.choice([0, 1]), 'ds': ds, 'de': de}}
+                                                 'ex': rng.choice([0, 1]) if op == 'mask' else rng.choice([0, 1, 1, 2, 3]), 'ds': ds, 'de': de}}
                     ev['out'] = do_event(cal, ev, rng.randrange(1000), dfl, lambda x, k: spell_free(x, rng), (cfg['lo'], cfg['hi']))
                     events.append(ev)
                     ctx.evals += 1
